@@ -11,12 +11,15 @@
       parameter copies, a non-empty body, `}`  (an empty compound command is what `bash -n` rejects;
       an empty block gets the `:` no-op);
     * `script_balanced`: nesting depth returns to 0 (openers and closers match up);
-    * `bodies_start_with_a_command`: a body never starts with a closer.
+    * `bodies_start_with_a_command`: a body never starts with a closer;
+    * `bash_helpers_defined_when_called` (every program, no hypothesis): a script that calls `_sah`, `_sch` or
+      `_ssh` contains the definition of that routine.
   Batch: balanced parentheses and empty construct stacks at the end for every program (theorems below);
   labels, helper inclusion, jump targets and `bash -n` itself are decided by the structural oracles of the check.
 -/
 import TshVerif.Props.C01
 import TshVerif.Props.C05
+import TshVerif.Lemmas.BashHelpers
 namespace Tsh.C16
 open Tsh Tsh.Tr Tsh.Bash
 
@@ -38,6 +41,72 @@ theorem bodies_start_with_a_command {lo hi : Nat} {l : Line} {rest : List Line} 
 /-- an empty block is emitted as the no-op, never as nothing -/
 theorem empty_block_is_nop (s : St) : evalBlock conv [] s = .ok ((), { s with code := .nop :: s.code }) := by
   unfold evalBlock; rfl
+
+theorem helperLines_plain (st : St) : ∀ l ∈ helperLines st, l.needsSah = false ∧ l.needsSch = false ∧ l.needsSsh = false := by
+  intro l hl
+  unfold helperLines at hl
+  simp only [List.mem_append] at hl
+  rcases hl with (hl | hl) | hl
+  · split at hl
+    · simp at hl; rcases hl with rfl | rfl | rfl | rfl | rfl | rfl | rfl | rfl | rfl <;> simp [Line.needsSah, Line.needsSch, Line.needsSsh]
+    · simp at hl
+  · split at hl
+    · simp at hl; rcases hl with rfl | rfl | rfl | rfl | rfl | rfl | rfl | rfl | rfl | rfl | rfl <;> simp [Line.needsSah, Line.needsSch, Line.needsSsh]
+    · simp at hl
+  · split at hl
+    · simp at hl; rcases hl with rfl | rfl | rfl | rfl | rfl | rfl <;> simp [Line.needsSah, Line.needsSch, Line.needsSsh]
+    · simp at hl
+
+/-- **Bash: every helper routine that is called is defined** -- for every program (no hypothesis on the AST):
+    a script that contains a `_sah` / `_sch` / `_ssh` call contains the definition of that routine. -/
+theorem bash_helpers_defined_when_called (p : Program) (ls : List Line) (h : compile p = .ok ls) :
+    ((∃ l ∈ ls, l.needsSah = true) → Line.funcStart "_sah" ∈ ls) ∧
+    ((∃ l ∈ ls, l.needsSch = true) → Line.funcStart "_sch" ∈ ls) ∧
+    ((∃ l ∈ ls, l.needsSsh = true) → Line.funcStart "_ssh" ∈ ls) := by
+  unfold compile at h
+  split at h
+  · rename_i u s hrun
+    simp at h
+    subst h
+    unfold evalProgram at hrun
+    obtain ⟨_, s1, h1, hrun⟩ := bind_ok hrun
+    obtain ⟨_, s2, h2, h3⟩ := bind_ok hrun
+    have e1 : s1 = { ({} : St) with startCode := [.shebang] } := by
+      have : addStartLine .shebang ({} : St) = .ok ((), s1) := h1
+      simp [addStartLine, Tr.modify] at this
+      exact this.symm
+    have e3 : s = s2 := by
+      have : (pure () : BM Unit) s2 = .ok (u, s) := h3
+      exact (pure_ok this).2
+    subst e3
+    have hs := (evalStmts_hok p).step _ _ _ h2
+    obtain ⟨new, hc, hreq⟩ := hs.code
+    have hcode : s.code = new := by rw [hc, e1]; simp
+    have hstart : s.startCode = [.shebang] := by rw [hs.start, e1]
+    have key : ∀ l ∈ dumpLines s, (l.needsSah = true → s.sahReq = true) ∧ (l.needsSch = true → s.schReq = true) ∧ (l.needsSsh = true → s.sshReq = true) := by
+      intro l hl
+      unfold dumpLines at hl
+      simp only [List.mem_append, List.mem_reverse] at hl
+      rcases hl with (hl | hl) | hl
+      · rw [hstart] at hl; simp at hl; subst hl; simp [Line.needsSah, Line.needsSch, Line.needsSsh]
+      · obtain ⟨a, b, c⟩ := helperLines_plain s l hl
+        simp [a, b, c]
+      · rw [hcode] at hl; exact hreq l hl
+    refine ⟨?_, ?_, ?_⟩
+    · rintro ⟨l, hl, hn⟩
+      have := (key l hl).1 hn
+      unfold dumpLines helperLines
+      simp [this]
+    · rintro ⟨l, hl, hn⟩
+      have := (key l hl).2.1 hn
+      unfold dumpLines helperLines
+      simp [this]
+    · rintro ⟨l, hl, hn⟩
+      have := (key l hl).2.2 hn
+      unfold dumpLines helperLines
+      simp [this]
+  · simp at h
+  · simp at h
 
 /-- **Batch: balanced parentheses** in every emitted script, for every program (C05.parentheses_balanced):
     the number of lines that open a block equals the number of lines that close one, helper routines included. -/
